@@ -174,3 +174,83 @@ func VerifC17Routing() {
 	}
 	vf.Reach("end")
 }
+
+func init() { VfHarnesses["VerifC17LateRegistration"] = VerifC17LateRegistration }
+
+// vfNodePeer is an authenticated node (universe key 2, leaf under the current root) offering one extra protocol name.
+func vfNodePeer(leaf []byte, nonce []byte, name string) *vfs.Peer {
+	reqBytes, _ := proto.Marshal(&types.GenerateServerCertificatesRequest{CertificatePublicKeyPkix: vf.Pkix(2), Nonce: nonce, NonceSignature: vf.SigBy(2, nonce)})
+	protos, _ := nodetls.BreakIntoNextProtos(nodeenrollment.AuthenticateNodeNextProtoV1Prefix, base64.RawStdEncoding.EncodeToString(reqBytes))
+	prefId, _ := nodeenrollment.KeyIdFromPkix(vf.Pkix(0))
+	protos = append(protos, name, nodeenrollment.CertificatePreferenceV1Prefix+prefId)
+	peer := &vfs.Peer{Protos: protos, Chain: [][]byte{leaf}, HoldsLeafKey: true}
+	peer.Conn = vf.AdversaryConn(peer.Protos, peer.Chain, 2, true)
+	return peer
+}
+
+// C17 (sub-listeners registered while the split listener runs): a first authenticated connection arrives when the
+// sub-listener it would go to does not exist yet and is closed; the application then registers that sub-listener
+// (the non-specific authenticated one, or the specific one) and a second authenticated connection arrives: it is
+// routed by the registrations in force when it arrives, not by those seen for an earlier connection.
+func VerifC17LateRegistration() {
+	ctx := context.Background()
+	st := &vfs.Storage{}
+	t0 := vf.Now()
+	vf.ShortScenario(t0, time.Second)
+	cur, curTmpl := vfs.MkRoot("current", 0, t0.Add(-time.Hour), t0.Add(time.Hour))
+	next, _ := vfs.MkRoot("next", 1, t0.Add(-time.Hour), t0.Add(time.Hour))
+	if err := (&types.RootCertificates{Id: nodeenrollment.RootsMessageId, Current: cur, Next: next}).Store(ctx, st); err != nil {
+		panic(err)
+	}
+	nodeKeyId, _ := nodeenrollment.KeyIdFromPkix(vf.Pkix(2))
+	if err := (&types.NodeInformation{Id: nodeKeyId, CertificatePublicKeyPkix: vf.Pkix(2)}).Store(ctx, st); err != nil {
+		panic(err)
+	}
+	leaf := vfs.MkCert(&x509.Certificate{SubjectKeyId: vf.Pkix(2), Subject: pkix.Name{CommonName: nodeKeyId}, DNSNames: []string{nodeKeyId},
+		ExtKeyUsage: []x509.ExtKeyUsage{x509.ExtKeyUsageClientAuth}, SerialNumber: big.NewInt(2), NotBefore: curTmpl.NotBefore, NotAfter: curTmpl.NotAfter}, curTmpl, 2, 0)
+	name := "other"
+	if vf.Bool("nodes-offer-the-specific-name") {
+		name = "special"
+	}
+	first := vfNodePeer(leaf, []byte("the-first-connection-nonce-32-by"), name)
+	second := vfNodePeer(leaf, []byte("the-second-connection-nonce-32-b"), name)
+	baseClosed, arrive := make(chan struct{}), make(chan struct{})
+	script := &vfs.Script{Conns: []net.Conn{first, second}, Errs: []error{nil, nil}, Hold: baseClosed, Gate: arrive, GateAt: 1}
+	il, err := protocol.NewInterceptingListener(&protocol.InterceptingListenerConfiguration{Context: ctx, Storage: st, BaseListener: vfAddrListener{script}})
+	vf.Assert("listener-built", err == nil)
+	sl, err := NewSplitListener(il)
+	vf.Assert("split-built", err == nil)
+	var unauthLn net.Listener
+	if vf.Bool("unauthenticated-listener-registered-from-the-start") {
+		unauthLn, _ = sl.GetListener(UnauthenticatedNextProto)
+	}
+	go func() { _ = sl.Start() }()
+	vf.Quiesce() // the first connection has been handled: nothing takes it, it is closed
+
+	lateSpecific := vf.Bool("late-listener-is-the-specific-one")
+	var late net.Listener
+	if lateSpecific {
+		late, err = sl.GetListener("special")
+	} else {
+		late, err = sl.GetListener(AuthenticatedNonSpecificNextProto)
+	}
+	vf.Assert("late-listener-registered", err == nil && late != nil)
+	close(arrive) // the second connection arrives now
+	if !lateSpecific || name == "special" {
+		vf.Reach("delivered-to-the-late-listener")
+		got, aerr := late.Accept()
+		vf.Assert("second-connection-delivered-to-the-listener-registered-meanwhile", aerr == nil && got != nil)
+	} else {
+		vf.Reach("second-connection-has-no-listener")
+	}
+	vf.Quiesce()
+	close(baseClosed)
+	vf.Quiesce()
+	for _, ln := range []net.Listener{late, unauthLn} {
+		if ln != nil {
+			_, cerr := ln.Accept()
+			vf.Assert("every-sub-listener-reports-closed", errors.Is(cerr, net.ErrClosed))
+		}
+	}
+	vf.Reach("end")
+}
